@@ -26,6 +26,7 @@ type Clause struct {
 type LoopContract struct {
 	Ordinal    int
 	Hints      []Clause
+	Splits     []Clause // case analysis: every obligation of the loop body is discharged once per case
 	Invariants []Clause
 	Decreases  *Clause
 }
@@ -127,7 +128,7 @@ var (
 )
 
 var clauseKeywords = map[string]bool{"func": true, "spec": true, "lemma": true, "property": true, "ghost": true, "requires": true,
-	"ensures": true, "loop": true, "invariant": true, "decreases": true, "flags": true, "bind": true, "callsite": true, "let": true, "hint": true, "noread": true, "cache": true, "mustread": true, "global": true, "fresh": true}
+	"ensures": true, "loop": true, "invariant": true, "decreases": true, "flags": true, "bind": true, "callsite": true, "let": true, "hint": true, "noread": true, "cache": true, "mustread": true, "global": true, "fresh": true, "split": true}
 
 func parseParams(s string) ([]Param, error) {
 	s = strings.TrimSpace(s)
@@ -340,6 +341,15 @@ func (cs *Contracts) ParseFile(path, pkgName string) error {
 				return err
 			}
 			curLoop.Invariants = append(curLoop.Invariants, c)
+		case "split":
+			if curLoop == nil {
+				return fail(l, "split outside loop")
+			}
+			c, err := mkClause(l, rest)
+			if err != nil {
+				return err
+			}
+			curLoop.Splits = append(curLoop.Splits, c)
 		case "hint":
 			if curLoop == nil {
 				return fail(l, "hint outside loop")
